@@ -55,7 +55,7 @@ type parState struct {
 	yielded chan *thread
 	locs    map[any]*locState
 	locks   map[*Value]*rwState
-	pools   map[*Value]vclock
+	pools   map[*Value]vclock // release clocks of sync.Pool objects and atomic cells
 	races   map[string]bool
 }
 
